@@ -50,6 +50,27 @@ def ibd_init_samples_from_set(c):
     c.assigns(ss)
 
 
+@contract("tables.c", "tsk_ibd_finder_init_samples_from_nodes", ["self"])
+def ibd_init_samples_from_nodes(c):
+    """C19: the default sample set of ibd_segments is exactly the nodes whose flags have the sample BIT set (other flag
+    bits do not matter); every other entry of sample_set_id is left as it was"""
+    self_ = c.arg("self")
+    h, E = c.old, c.E
+    c.requires(z3.Not(h.isnull(self_)))
+    T, ss, rep = ibd_rep(h, self_)
+    c.requires(rep)
+    c.requires(T.nodes.rep())
+    nn = T.nodes.n
+    fl = T.nodes.col("flags")
+    ss0 = h.arr(ss)
+    want = lambda a, q: a[q] == z3.If(flag(fl[q], E.TSK_NODE_IS_SAMPLE), 0, ss0[q])
+    c.loop(0).invariant(lambda s: z3.And(0 <= s.u, s.u <= nn,
+                                         z3.ForAll([i], z3.Implies(z3.And(0 <= i, i < s.u), want(s.arr(ss), i))),
+                                         z3.ForAll([i], z3.Implies(z3.And(s.u <= i, i < nn), s.arr(ss)[i] == ss0[i]))))
+    c.ensures(lambda: z3.ForAll([i], z3.Implies(z3.And(0 <= i, i < nn), want(c.new.arr(ss), i))), "samples_are_the_nodes_with_the_sample_bit")
+    c.assigns(ss)
+
+
 @contract("tables.c", "tsk_ibd_finder_add_sample_ancestry", ["self"], assumed=True)
 def ibd_add_sample_ancestry(c):
     self_ = c.arg("self")
